@@ -80,6 +80,15 @@ normalised eigenvector. -/
 def fromReflectionAccepts (ε : K) (evals : List K) (vnorm : K) : Bool :=
   isReflSpectrum ε evals && decide (ε < vnorm)
 
+/-- `M` and `-M` are the same isometry, so `from_reflection` first passes to the representative of
+non-negative trace; on the spectrum this negates every eigenvalue when their sum is negative -/
+def traceRep (evals : List K) : List K :=
+  if evals.sum < 0 then evals.map (fun x => -x) else evals
+
+/-- the acceptance decision of `from_reflection` on either representative `±M` -/
+def fromReflectionAcceptsRep (ε : K) (evals : List K) (vnorm : K) : Bool :=
+  fromReflectionAccepts ε (traceRep evals) vnorm
+
 /-- scan for `np.argmin` (first minimum): position `i` in the scan, best value and index so far -/
 def argminGo : List K → ℕ → K → ℕ → ℕ
   | [], _, _, bi => bi
